@@ -126,6 +126,38 @@ theorem load_eq_expand (inp k : Bytes) (hk : k.length = 32) (hi : inp.length = 1
   obtain ⟨i0,i1,i2,i3,i4,i5,i6,i7,i8,i9,i10,i11,i12,i13,i14,i15, rfl⟩ := len16 inp hi
   rfl
 
+/-! ## arbitrary 16-byte constant `c` (the Go functions take the constant as a parameter) -/
+
+/-- the 64-byte block c0 ‖ k0 ‖ c1 ‖ n ‖ c2 ‖ k1 ‖ c3 for a 16-byte constant `c` (σ gives `expand`) -/
+def expandC (c key in16 : Bytes) : Bytes :=
+  let k := fit 32 key
+  let cc := fit 16 c
+  cc.take 4 ++ k.take 16 ++ (cc.drop 4).take 4 ++ fit 16 in16 ++ (cc.drop 8).take 4 ++ k.drop 16 ++ cc.drop 12
+
+/-- HSalsa20 with constant `c`: 20 rounds on the expansion, no feed-forward, words 0,5,10,15,6,7,8,9 -/
+def hsalsa20C (c key in16 : Bytes) : Bytes :=
+  let z := iter doubleRound 10 (St.ofBytes (expandC c key in16))
+  w2b z.x0 ++ w2b z.x5 ++ w2b z.x10 ++ w2b z.x15 ++ w2b z.x6 ++ w2b z.x7 ++ w2b z.x8 ++ w2b z.x9
+
+theorem expandC_sigma (key in16 : Bytes) : expandC sigma key in16 = expand key in16 := rfl
+
+theorem load_eq_expandC (inp k c : Bytes) (hk : k.length = 32) (hi : inp.length = 16) (hc : c.length = 16) :
+    loadCKI inp k c = St.ofBytes (expandC c k inp) := by
+  obtain ⟨k0,k1,k2,k3,k4,k5,k6,k7,k8,k9,k10,k11,k12,k13,k14,k15,k16,k17,k18,k19,k20,k21,k22,k23,k24,k25,k26,k27,k28,k29,k30,k31, rfl⟩ := len32 k hk
+  obtain ⟨i0,i1,i2,i3,i4,i5,i6,i7,i8,i9,i10,i11,i12,i13,i14,i15, rfl⟩ := len16 inp hi
+  obtain ⟨c0,c1,c2,c3,c4,c5,c6,c7,c8,c9,c10,c11,c12,c13,c14,c15, rfl⟩ := len16 c hc
+  rfl
+
+/-- `core(out, in, k, c)` for every constant = Salsa20/20 core of the expansion with that constant -/
+theorem coreGo_eqC (inp k c : Bytes) (hk : k.length = 32) (hi : inp.length = 16) (hc : c.length = 16) :
+    coreGo inp k c = core 20 (expandC c k inp) := by
+  simp only [coreGo, core, coreW, load_eq_expandC inp k c hk hi hc, iter_goRound2]
+
+/-- `HSalsa20(out, in, k, c)` for every constant -/
+theorem hsalsa20Go_eqC (inp k c : Bytes) (hk : k.length = 32) (hi : inp.length = 16) (hc : c.length = 16) :
+    hsalsa20Go inp k c = hsalsa20C c k inp := by
+  simp only [hsalsa20Go, hsalsa20C, load_eq_expandC inp k c hk hi hc, iter_goRound2]
+
 /-- salsa20_ref.go `core` with the σ constant = Salsa20_k(n) of the specification -/
 theorem coreGo_eq (inp k : Bytes) (hk : k.length = 32) (hi : inp.length = 16) :
     coreGo inp k sigma = salsa20Block k inp := by
